@@ -120,5 +120,4 @@ def run(tier, seed, t0):
 
 
 def replay(path):
-    print(open(path).read()[:4000])
-    return 0
+    return c01.replay(path)
